@@ -27,6 +27,10 @@ func sliceArrayOperator(d *dataTreeNavigator, context Context, expressionNode *E
 	for el := context.MatchingNodes.Front(); el != nil; el = el.Next() {
 		lhsNode := el.Value.(*CandidateNode)
 
+		if lhsNode.Kind == MappingNode || lhsNode.Kind == ScalarNode {
+			return Context{}, fmt.Errorf("cannot slice %v, only arrays can be sliced", lhsNode.Tag)
+		}
+
 		firstNumber, err := getSliceNumber(d, context, lhsNode, expressionNode.LHS)
 
 		if err != nil {
